@@ -11,12 +11,17 @@
                                   ids whose bits are those of the requested (initiator, direction) class
   * pairing_is_partial_bijection  client id <-> server id is one-to-one (both directions), equal directionality
   * pairing_is_stable             a registered pair never changes afterwards
-  * open_connection_pairs_the_stream   the partner is created (same class) when the child yields OpenConnection
+  * open_connection_pairs_the_stream   STEP-LOCAL and conditional: IF the child yields OpenConnection, the partner is
+                                  created (same class); whether the child does is the child's decision
+  * client_stream_gets_its_server_stream(_from)   run-level, for the tied child `relayOps` (C29 relay model): after any
+                                  history, data on a fresh client-initiated id + completion of its start hook leaves
+                                  the pair (id, allocator's id of the same class) registered
   * signals_reach_only_pair       every SendQuicStreamData / ResetQuicStream / StopSendingQuicStream produced by a
                                   stream event (data, FIN, reset, hook completion) is addressed to the client stream or
                                   the server stream of the one layer registered under the event's id
   * stream_commands_address_registered_streams   (all events, incl. the connection-close fan-out)
-  * allocated_ids_unique_with_own_connect, no_data_or_reset_after_fin_or_reset_with_own_connect, failed_own_connect_ends_layer:
+  * allocated_ids_unique_with_own_connect, no_data_or_reset_after_fin_or_reset_with_own_connect,
+    failed_own_connect_ends_layer (next event) / failed_own_connect_ends_layer_forever (every later event list):
                                   the same with the layer's own OpenConnection on Start (pause queue + replay)
   * no_data_or_reset_after_fin_or_reset   whole history: nothing is sent on a (connection, stream id) after its FIN / reset
   * pairing_is_stable_forever, signals_reach_only_pair_forever, history_addresses_registered_streams
@@ -24,6 +29,7 @@
 -/
 import MitmVerif.Lemmas.C30
 import MitmVerif.Lemmas.C30Fin
+import MitmVerif.Lemmas.C30Pair
 namespace MitmVerif.Props.C30
 open MitmVerif MitmVerif.C30 MitmVerif.C30.Lemmas
 
@@ -144,9 +150,13 @@ theorem pairing_is_stable (ins : List QIn) (i : QIn) :
   exact (step_spec ops _ i (reach ops ins)).2.1
 
 /-- **Signals reach only the pair.**  For a stream-level event (data / FIN / reset on stream `id` from the client or
-    the server, or the completion of a hook of stream `id`): unless the event was ignored (layer done) or rejected by the
-    registration assertion, there is a layer registered under that id and *every* stream command produced is addressed
-    either to that layer's client stream (on the client connection) or to its server stream (on the server connection). -/
+    the server, or the completion of a hook of stream `id`), one of three things holds.  (1) The step produced NO command at
+    all — the layer is done, or the event was processed and the child had nothing to say (e.g. empty data without FIN on a known
+    stream).  (2) The step produced exactly one `fault` and nothing else — the registration assertion, a hook completion for an
+    unknown client id, the `close_stream_layer` assertion before any output, or exhausted fuel.  In (1) and (2) there is no
+    stream command, so nothing can have reached a wrong stream, but no registration fact is claimed.  (3) Otherwise there IS a
+    layer registered under that id and *every* stream command produced is addressed either to that layer's client stream (on the
+    client connection) or to its server stream (on the server connection). -/
 theorem signals_reach_only_pair (ins : List QIn) (i : QIn) (fromClient : Bool) (id : Nat)
     (hk : eventKey i = some (fromClient, id)) :
     let m := (run ops (Mux.init ops) ins).1
@@ -214,7 +224,8 @@ theorem pairing_is_stable_forever (pre post : List QIn) :
   exact stable_run ops _ (reach ops pre) post
 
 /-- **Ids are never confused, over whole histories.**  Take any event sequence `pre ++ i :: post` where `i` is a
-    stream-level event for stream `id` (from the client or the server).  Unless `i` was ignored or rejected, the layer that
+    stream-level event for stream `id` (from the client or the server).  Unless `i` produced no command at all or exactly one
+    `fault` (the two escape cases of `signals_reach_only_pair`, in which no stream command exists), the layer that
     is registered under that id in the FINAL state — after all of `post` — is such that every stream command `i` produced
     was addressed to that layer's client stream or to its server stream.  (With `allocated_ids_unique` that layer is unique.) -/
 theorem signals_reach_only_pair_forever (pre post : List QIn) (i : QIn) (fromClient : Bool) (id : Nat)
@@ -442,13 +453,41 @@ theorem no_data_or_reset_after_fin_or_reset_with_own_connect (connected : Bool) 
   · intro d fin e; subst e; simp [sendAt, sendOn, target] at hx'
   · intro code e; subst e; simp [sendAt, sendOn, target] at hx'
 
-/-- a failed connect of the layer itself: the client is closed, the layer is done, every later event is ignored -/
+/-- a failed connect of the layer itself: the client is closed, and the NEXT event (whatever it is) yields nothing; the form for
+    every later sequence of events is `failed_own_connect_ends_layer_forever` below -/
 theorem failed_own_connect_ends_layer (mq : MuxQ σ) (hw : mq.waiting = true) :
     (stepQ ops mq (.connectDone true)).2 = [.dgram (.close .client false)] ∧
     ∀ i, (stepQ ops (stepQ ops mq (.connectDone true)).1 (.ev i)).2 = [] := by
   refine ⟨by simp [stepQ, hw], ?_⟩
   intro i
   simp [stepQ, hw, step]
+
+/-- a layer that is done and not waiting: whatever arrives produces nothing and leaves it in that state -/
+private theorem dead_stepQ (mq : MuxQ σ) (hd : mq.m.done = true) (hw : mq.waiting = false) (x : QInQ) :
+    (stepQ ops mq x).2 = [] ∧ (stepQ ops mq x).1.m.done = true ∧ (stepQ ops mq x).1.waiting = false := by
+  cases x with
+  | ev i => simp [stepQ, hw, hd, step]
+  | connectDone err => simp [stepQ, hw, hd]
+
+private theorem dead_runQ (xs : List QInQ) : ∀ (mq : MuxQ σ) (acc : List QOut), mq.m.done = true → mq.waiting = false →
+    (xs.foldl (fun (a : MuxQ σ × List QOut) x => ((stepQ ops a.1 x).1, a.2 ++ (stepQ ops a.1 x).2)) (mq, acc)).2 = acc := by
+  induction xs with
+  | nil => intro mq acc _ _; rfl
+  | cons x t ih =>
+    intro mq acc hd hw
+    obtain ⟨h1, h2, h3⟩ := dead_stepQ ops mq hd hw x
+    simp only [List.foldl_cons, h1, List.append_nil]
+    exact ih _ acc h2 h3
+
+/-- **A failed connect of the layer itself ends it for good** (list form of `failed_own_connect_ends_layer`): after the error
+    reply the layer yields `CloseConnection(client)` and then, for EVERY later sequence of events and replies of any
+    length, nothing at all. -/
+theorem failed_own_connect_ends_layer_forever (mq : MuxQ σ) (hw : mq.waiting = true) (xs : List QInQ) :
+    (stepQ ops mq (.connectDone true)).2 = [.dgram (.close .client false)] ∧
+    (runQ ops (stepQ ops mq (.connectDone true)).1 xs).2 = [] := by
+  refine ⟨by simp [stepQ, hw], ?_⟩
+  have := dead_runQ ops xs (stepQ ops mq (.connectDone true)).1 [] (by simp [stepQ, hw]) (by simp [stepQ, hw])
+  simpa [runQ] using this
 
 /-! ### the write guard of `event_to_child` (the step-local facts behind the theorem above) -/
 
@@ -476,11 +515,107 @@ theorem fin_makes_side_unwritable (rec : TS σ → List C29.Output → TS σ) (t
     · simp [hw]
     · cases to <;> simp [hw, TS.push, Stream.conn, Stream.setConn]
 
+/-! ### run-level pairing with the C29 relay as the child (audit round 6, owner fix) -/
+
+private theorem translate_one (ops : ChildOps σ) (n : Nat) (ts : TS σ) (c : C29.Output) :
+    translate ops (n + 1) ts [c] = procOne ops (translate ops n) ts c := rfl
+
+/-- second step: the start hook of that layer completes; its child asks for the connection and the layer gets the
+    server stream id the allocator holds for the client id's class -/
+private theorem start_hook_completion_pairs (m1 : Mux C29.State) (pre : List (Stream C29.State)) (ts : TS C29.State) (id : Nat)
+    (hf : FreshTS id m1.next ts) (hs : m1.streams = pre ++ [ts.s]) (hd : m1.done = false)
+    (hpre : ∀ x ∈ pre, (x.cid == id) = false) (hinv : MuxInv m1) :
+    ∃ s ∈ (step relayOps m1 (.hookDone (some id) none)).1.streams,
+      s.cid = id ∧ s.sid = some (m1.next.get (allocIndex true (isUni id))) := by
+  obtain ⟨h1, h2, h3, h4, h5⟩ := hf
+  have hfind : m1.find true id = some pre.length := by
+    unfold Mux.find
+    rw [hs, List.findIdx?_append]
+    have e1 : List.findIdx? (fun s => if true = true then s.cid == id else s.sid == some id) pre = none :=
+      List.findIdx?_eq_none_iff.2 (by intro x hx; simpa using hpre x hx)
+    rw [e1]
+    simp [List.findIdx?_cons, h1]
+  have hget : m1.streams[pre.length]? = some ts.s := by rw [hs]; exact List.getElem?_concat_length
+  unfold step
+  simp only [hd, Bool.false_eq_true, if_false, hfind, hget]
+  unfold Mux.withStream
+  simp only
+  -- the layer's invariant at the start of the call
+  have hl : ListInv m1.streams m1.next := hinv
+  have hok : StreamOK m1.next ts.s := hl.2.1 ts.s (by rw [hs]; simp)
+  have hT := tsinv_start hl.1 hok
+  unfold eventToChild
+  simp only [Bool.false_eq_true, if_false]
+  rw [relay_asks_to_connect ts.s.child h3]
+  rw [show FUEL = 7 + 1 from rfl, translate_one]
+  have hT' : TSInv ts.s.cid ts.s.sid m1.next
+      ({ s := { ts.s with child := (relayOps.step ts.s.child ts.s.cConn ts.s.sConn (.hookDone none)).1 },
+         next := m1.next, out := [], halt := false } : TS C29.State) :=
+    hT.congr rfl rfl rfl rfl
+  obtain ⟨hsid, -⟩ := open_connection_pairs_the_stream relayOps 7 _ hT' rfl h2
+  have hcid := (procOne_inv relayOps (translate relayOps 7) (translate_inv relayOps 7) hT' .openServer).cid
+  refine ⟨_, List.mem_set (by rw [hs]; simp) _, ?_, ?_⟩
+  · rw [hcid]; exact h1
+  · rw [hsid]; simp [h1]
+
+/-- RUN-LEVEL pairing for the tied child (`relayOps`, the C29 relay model).  `open_connection_pairs_the_stream` is
+    step-local and conditional: it says what happens IF the child yields OpenConnection, and whether it does is the
+    child's decision.  With the tied child the decision is known: from any state of a live layer that satisfies the
+    invariant, data (with or without FIN) on a client-initiated id that no layer is registered under, followed by the
+    completion of that stream's start hook, leaves a layer registered under exactly that client id whose server id is
+    the one the allocator held for the id's class (client-initiated, same directionality) BEFORE the two events. -/
+theorem client_stream_gets_its_server_stream_from (m : Mux C29.State) (hinv : MuxInv m) (id : Nat) (d : Bytes) (fin : Bool) (hd : m.done = false)
+    (hfind : m.find true id = none) (hci : isClientInit id = true) :
+    ∃ s ∈ (step relayOps (step relayOps m (.streamData true id d fin)).1 (.hookDone (some id) none)).1.streams,
+      s.cid = id ∧ s.sid = some (m.next.get (allocIndex true (isUni id))) := by
+  obtain ⟨ts, hf, hs, hn, hd1⟩ := first_event_registers m id d fin hd hfind hci
+  have hinv1 := (step_spec relayOps m (.streamData true id d fin) hinv).1
+  have hpre : ∀ x ∈ m.streams, (x.cid == id) = false := by
+    have := List.findIdx?_eq_none_iff.1 (by simpa [Mux.find] using hfind :
+      List.findIdx? (fun s : Stream C29.State => s.cid == id) m.streams = none)
+    intro x hx; simpa using this x hx
+  have hf1 : FreshTS id (step relayOps m (.streamData true id d fin)).1.next ts := by
+    rw [hn]; exact hf
+  have := start_hook_completion_pairs _ m.streams ts id hf1 hs hd1 hpre hinv1
+  rw [hn] at this
+  exact this
+
+/-- the same from every reachable state: after ANY history `ins` that leaves the layer alive and the client-initiated
+    id `id` unregistered, the history `ins ++ [data on id, start hook of id completes]` has the pair
+    (id, allocator's next server id of id's class) in its table.  (By `pairing_is_stable_forever` it stays.) -/
+theorem client_stream_gets_its_server_stream (ins : List QIn) (id : Nat) (d : Bytes) (fin : Bool)
+    (hnd : (run relayOps (Mux.init relayOps) ins).1.done = false)
+    (hfresh : (run relayOps (Mux.init relayOps) ins).1.find true id = none) (hci : isClientInit id = true) :
+    ∃ s ∈ (run relayOps (Mux.init relayOps) (ins ++ [.streamData true id d fin, .hookDone (some id) none])).1.streams,
+      s.cid = id ∧
+      s.sid = some ((run relayOps (Mux.init relayOps) ins).1.next.get (allocIndex true (isUni id))) := by
+  have e : (run relayOps (Mux.init relayOps) (ins ++ [.streamData true id d fin, .hookDone (some id) none])).1 =
+      (step relayOps (step relayOps (run relayOps (Mux.init relayOps) ins).1 (.streamData true id d fin)).1
+        (.hookDone (some id) none)).1 := by
+    rw [show ins ++ [QIn.streamData true id d fin, QIn.hookDone (some id) none] =
+      (ins ++ [QIn.streamData true id d fin]) ++ [QIn.hookDone (some id) none] by simp]
+    rw [run_snoc, run_snoc]
+  rw [e]
+  exact client_stream_gets_its_server_stream_from _ (reach relayOps ins) id d fin hnd hfresh hci
+
+
 /-! ### non-vacuity: concrete runs of the model with the C29 relay as child -/
 
 private def demo : List QIn :=
   [.start, .streamData true 0 [1] false, .hookDone (some 0) none, .streamData false 3 [2] true,
    .streamData true 4 [] false, .hookDone (some 4) none, .hookDone (some 0) none]
+
+/-- `client_stream_gets_its_server_stream` instantiated: after `demo`, client id 8 is fresh and gets server id 8 … -/
+example : ∃ s ∈ (run relayOps (Mux.init relayOps)
+      (demo ++ [.streamData true 8 [5] true, .hookDone (some 8) none])).1.streams, s.cid = 8 ∧ s.sid = some 8 := by
+  have h := client_stream_gets_its_server_stream demo 8 [5] true (by decide) (by decide) (by decide)
+  rwa [show (run relayOps (Mux.init relayOps) demo).1.next.get (allocIndex true (isUni 8)) = 8 by decide] at h
+
+/-- … and a client that opens id 4 FIRST gets server id 0: the paired ids differ, the class does not -/
+example : ∃ s ∈ (run relayOps (Mux.init relayOps)
+      ([.start] ++ [.streamData true 4 [] true, .hookDone (some 4) none])).1.streams, s.cid = 4 ∧ s.sid = some 0 := by
+  have h := client_stream_gets_its_server_stream [.start] 4 [] true (by decide) (by decide) (by decide)
+  rwa [show (run relayOps (Mux.init relayOps) [.start]).1.next.get (allocIndex true (isUni 4)) = 0 by decide] at h
 
 /-- two client-initiated bidi streams get server ids 0 and 4, the server-initiated uni stream 3 gets client id 3 -/
 example : ((run relayOps (Mux.init relayOps) demo).1.streams.map fun s => (s.cid, s.sid)) =
